@@ -4,6 +4,7 @@ use super::queue_state::*;
 use super::wake_queue::*;
 
 use std::sync::*;
+#[cfg(desync_verif)] use vsched::sync::{Mutex, Condvar};
 use std::collections::vec_deque::*;
 
 use futures::task;
